@@ -92,7 +92,11 @@ def run_variant(args):
 
 # stored refactorings a check cannot yet follow (documented in DESIGN.md 10.9): reported in the evidence, not failing the self-test
 KNOWN_UNDECIDED = {
-    "C17": {"set4_8": "flatten - single vmap - unflatten of the [S, A, E] successor array is outside the kernel IR's reshape vocabulary"},
+    "C17": {"set4_8": "flatten - single vmap - unflatten of the [S, A, E] successor array is outside the kernel IR's reshape vocabulary",
+            "r2set4_2": "one broadcast scatter per event (index arrays [1, A] x [S, 1] x [S, A]) instead of the event x action double loop"},
+    "C02": {"r2set2_3": "history rows precomputed as a Python list and walked with enumerate(zip(rows, rows[1:])): no loop summary"},
+    "C03": {"r2set2_3": "same"},
+    "C07": {"r2set2_3": "same"},
 }
 
 
